@@ -43,6 +43,9 @@ def plan(tier):
         K("k_basename", "kjobs.c10", "file_base_name", "file base name strips leading underscores"),
         K("k_outside", "kjobs.c10", "outside_package_paths", "placeholder stub path arithmetic"),
         CH("layout", "harness.c10", "layout", parts, timeout=t, desc="paths vs announced module path", stubs=["in-memory FS"]),
+        CH("placeholders", "harness.c10", "placeholders", [f"0:{c},1:{a},2:{b}" for c in range(2) for a in range(2) for b in range(2)], timeout=t,
+           desc="placeholder stubs: each path written once, every referenced foreign class declared where its import points",
+           stubs=["in-memory FS"]),
         CH("api_file", "harness.c10", "api_file_name", [""], timeout=t, desc="API file name and stage order",
            stubs=["get_api, StubsStringGenerator, generate_stub_data, create_stub_files -> recorders"]),
     ]
